@@ -18,6 +18,8 @@ ALG = ["interpret", "mainEventLoop", "exitInterpreter", "selectEventlessTransiti
 def terminal_leaves(n):
     """Leaves in tail position of a statement / expression (an absent else is the leaf {'k':'empty-else', 'of': if-node})."""
     k = n.get("k")
+    if set(macros_of(n)) & {"debug", "info", "warn", "error", "trace", "log"}:
+        return [n]   # the expansion of a logging macro (`if enabled { .. }`) is one leaf, whatever the feature set
     if k == "block":
         seq = list(n["st"]) + ([n["tail"]] if "tail" in n else [])
         if not seq:
